@@ -313,4 +313,47 @@ theorem mitems_roundtrip_msg (ms : List MItem) (hneed : GItems.need (MItems.gs m
   refine ⟨((GItems.pair (MItems.gs ms)).dec { msg := pdu }).2.cursorByte, ?_⟩
   rw [decodeMessage_mitems ms hneed hok pdu hfit hpre, hv]
 
+
+/-! ### the MIN-MAX-LENGTH-TYPE parameters as items -/
+
+/-- terminator written: only with `is_end_of_pdu` cleared -/
+def MMLeaf.toMid (l : MMLeaf) : MItem :=
+  { g := { name := l.name, param := l.toParam, pair := l.pairMid, need := 2 }, mid := true }
+
+/-- value of exactly MAX-LENGTH bytes: anywhere -/
+def MMLeaf.gFull (l : MMLeaf) : GItem := { name := l.name, param := l.toParam, pair := l.pairEnd, need := 2 }
+
+/-- at the end of the PDU: last parameter, and the decoded message must end behind it -/
+def MMLeaf.gLast (l : MMLeaf) : GItem :=
+  { name := l.name, param := l.toParam, pair := l.pairEnd, need := 2, eopOnly := true,
+    decPre := fun d => (l.pairEnd.dec d).2.cursorByte = d.msg.length }
+
+theorem MMLeaf.toMid_ok (l : MMLeaf) (h : l.okMid) : l.toMid.Ok :=
+  { good := l.goodMid h, kind := Or.inl ⟨_, _, _, rfl⟩,
+    val_ne_none := by show PVal.atom l.v ≠ PVal.none; simp,
+    encode_eq := fun fuel hf s _ hm => l.encode_eq_mid h fuel hf s (hm rfl),
+    dec_cursorBit := fun _ _ => rfl,
+    dec_msg := fun _ => rfl,
+    decode_eq := fun fuel hf d _ hfit _ => l.decode_eq_mid h fuel hf d hfit,
+    decPre_of_end := fun _ _ => trivial, decPre_trivial := fun _ _ => trivial }
+
+theorem MMLeaf.gFull_ok (l : MMLeaf) (h : l.okFull) : l.gFull.Ok :=
+  { good := l.goodEnd h.1, kind := Or.inl ⟨_, _, _, rfl⟩,
+    val_ne_none := by show PVal.atom l.v ≠ PVal.none; simp,
+    encode_eq := fun fuel hf s _ => l.encode_eq_end h.1 fuel hf s (Or.inr h.2),
+    dec_cursorBit := fun _ _ => rfl,
+    dec_msg := fun _ => rfl,
+    decode_eq := fun fuel hf d _ hfit _ => l.decode_eq_end h.1 fuel hf d hfit (Or.inl h.2),
+    decPre_of_end := fun _ _ => trivial, decPre_trivial := fun _ _ => trivial }
+
+theorem MMLeaf.gLast_ok (l : MMLeaf) (h : l.okLast) : l.gLast.Ok :=
+  { good := l.goodEnd h, kind := Or.inl ⟨_, _, _, rfl⟩,
+    val_ne_none := by show PVal.atom l.v ≠ PVal.none; simp,
+    encode_eq := fun fuel hf s hs => l.encode_eq_end h fuel hf s (Or.inl (hs rfl)),
+    dec_cursorBit := fun _ _ => rfl,
+    dec_msg := fun _ => rfl,
+    decode_eq := fun fuel hf d _ hfit hpre => l.decode_eq_end h fuel hf d hfit (Or.inr hpre),
+    decPre_of_end := fun _ hd => hd,
+    decPre_trivial := fun hf => by cases hf }
+
 end OdxVerif.Codec
